@@ -18,10 +18,10 @@ for w in what:
             print(r['name'], r['status'], f"{r['seconds']:.3f}s", r.get('backend'), r.get('reason', ''))
         continue
     cls = None
-    if '@' in w:
+    if w not in SPECS.contracts and '@' in w:
         w, cls = w.split('@')
     c = SPECS.contracts[w]
-    for k in ([cls] if cls else (c.for_cls or [w.split('.')[0]])[:1]):
+    for k in ([cls] if cls else (c.for_cls or [c.qual.split('.')[0]])[:1]):
         res = verify.run_task(table, SPECS, c, k)
         print('==', w, '[', k, ']', f"{res.get('seconds', 0):.2f}s", res['meta'])
         if res['error']:
